@@ -194,6 +194,16 @@ pub fn alphabet(n: usize, c: &AlphaCfg) -> Vec<Dev> {
         s.prefix = Some("p/".into());
         true
     }));
+    // a spelling with a double quote and a backslash (must be emitted escaped, never re-lexed)
+    for i in 0..n.min(2) {
+        devs.push(dev(format!("v{}.serialize=\"q\\\"b\\\\n\"", i), &[&format!("serA{}", i)], move |s| {
+            if i >= s.variants.len() {
+                return false;
+            }
+            s.variants[i].serialize.insert(0, "q\"b\\n".into());
+            true
+        }));
+    }
     // doubled braces in a to_string / serialize literal are text for the parser (it accepts the literal as written)
     for i in 0..n.min(2) {
         devs.push(dev(format!("v{}.to_string=\"{{{{n}}}}\"", i), &[&format!("tos{}", i)], move |s| {
